@@ -3,6 +3,24 @@ from .common import *
 from utpsa.bounds import Bounds, fmt as fmt_ub, TOP
 
 CLAMP_TAG = ("clamped", "const rtte::RTTE_MIN_RTO", "const rtte::RTTE_MAX_RTO")
+RTO_FIELDS = ("RttState::Initial.rto", "RttState::Subsequent.rto")
+
+
+def refers_to_rto(b, x):
+    """does this place/operand (a `&mut rto` binding, possibly bound by an or-pattern over both variants) point at a stored rto?"""
+    t = trace(b, x)
+    if t.last_field in RTO_FIELDS:
+        return t.last_field
+    if t.kind == "multi" and not t.fields:
+        hits = []
+        for d in t.root[3]:
+            if isinstance(d, Stmt) and d.rv.kind == "ref" and d.rv.place is not None:
+                ff, _, _ = place_fields(b, d.rv.place)
+                if ff and ff[-1] in RTO_FIELDS:
+                    hits.append(ff[-1])
+        if hits and len(hits) == len(t.root[3]):
+            return "|".join(sorted(set(hits)))
+    return None
 
 
 @rule("C16.1", ["C16", "C06"], ["E5", "E1"], "the retransmission timeout is always the output of clamp(200 ms, 60 s)",
@@ -31,9 +49,9 @@ def c16_1(R):
             what = None
             # (a) `*rto = v` through a &mut binding of the field
             if s.place.proj == ["*"]:
-                t = trace(b, Place({"l": s.place.local, "p": []}))
-                if t.last_field in ("RttState::Initial.rto", "RttState::Subsequent.rto"):
-                    val, what = s.rv.ops[0] if s.rv.ops else None, "*rto (%s)" % t.last_field.split(".")[0].split("::")[-1]
+                rf = refers_to_rto(b, Place({"l": s.place.local, "p": []}))
+                if rf:
+                    val, what = s.rv.ops[0] if s.rv.ops else None, "*rto (%s)" % rf.replace("RttState::", "").replace(".rto", "")
             # (b) direct field write
             f = written_field(b, s)
             if f in ("RttState::Initial.rto", "RttState::Subsequent.rto"):
@@ -56,7 +74,31 @@ def c16_1(R):
                 R.ok("rto-write-clamped", "%s %s" % (b.name.split("::")[-1], what), "value is the output of clamp")
             else:
                 R.fail([b.name, "write(rto)", what, "not-clamped"], "%s stores an RTO that did not pass through clamp(RTTE_MIN_RTO, RTTE_MAX_RTO)" % b.name.split("::")[-1], where=s.where(), instance="rto-write-clamped")
+    # compound assignment through a call: `*rto *= 2` is <Duration as MulAssign>::mul_assign(&mut *rto, 2)
+    for b in F.bodies(lambda x: "rtte::" in x):
+        for t in b.calls():
+            if t.args and (t.callee or "").startswith("std::ops::") and (t.callee or "").endswith("_assign"):
+                if refers_to_rto(b, t.args[0]):
+                    n += 1
+                    R.fail([b.name, "write(rto)", short_callee(t.callee), "not-clamped"], "%s modifies the stored RTO in place (%s) without passing the result through clamp(RTTE_MIN_RTO, RTTE_MAX_RTO)" % (b.name.split("::")[-1], short_callee(t.callee)), where=t.where(), instance="rto-write-clamped")
     R.floor("writes of rto", n, 5)
+    # every sample recomputes the RTO (a backed-off value must not survive the next sample)
+    sm = R.body("rtte::RttEstimator::sample")
+    wb = set()
+    for s_ in sm.stmts():
+        if s_.place.proj == ["*"]:
+            if refers_to_rto(sm, Place({"l": s_.place.local, "p": []})):
+                wb.add(s_.bb)
+        if s_.rv.kind == "agg" and s_.rv.j.get("adt") == "rtte::RttState":
+            wb.add(s_.bb)
+        if written_field(sm, s_) in ("RttState::Initial.rto", "RttState::Subsequent.rto"):
+            wb.add(s_.bb)
+    okw, _ = must_pass_blocks(sm, sm.return_blocks(), wb)
+    if okw and wb:
+        R.ok("sample=>rto-recomputed", sm.name, "every path of sample() stores a freshly computed rto")
+    else:
+        path = shortest_path(sm, 0, sm.return_blocks(), removed_blocks=wb)
+        R.fail([sm.name, "return-without(rto-write)"], "RttEstimator::sample can return without recomputing the RTO: a value doubled by timeouts survives the next sample", where=sm.where(), witness=path_lines(sm, path), instance="sample=>rto-recomputed")
     for b, s in census_field_writes(F, "RttEstimator.state"):
         if b.name in ("rtte::RttEstimator::sample",) or b.trait == "std::default::Default":
             R.ok("state-writers", b.name)
